@@ -899,6 +899,9 @@ static CMDResult CMD_AdrRelocate(Boolean Negate, char const* Arg) {
         Relocate = 0;
         return CMDOK;
     } else {
+        if (*Arg == '\0') {
+            return CMDErr;
+        }
         Relocate = ConstLongInt(Arg, &ok, 10);
         if (!ok) {
             return CMDErr;
@@ -1039,6 +1042,9 @@ static CMDResult CMD_EntryAdr(Boolean Negate, char const* Arg) {
         EntryAdrPresent = False;
         return CMDOK;
     } else {
+        if (*Arg == '\0') {
+            return CMDErr;
+        }
         EntryAdr = ConstLongInt(Arg, &ok, 10);
         if ((!ok) || (EntryAdr > 0xffff)) {
             return CMDErr;
